@@ -140,6 +140,20 @@ func (l *lgen) starLines() geom.MultiLineString {
 	return geom.NewMultiLineString(ls)
 }
 
+// emptyTree is the nesting structure of a geometry with an emptiness flag per node.
+func emptyTree(g geom.Geometry) Event {
+	t := Event{"t": g.Type().String(), "e": g.IsEmpty(), "c": []Event{}}
+	if g.IsGeometryCollection() {
+		gc := g.MustAsGeometryCollection()
+		cs := []Event{}
+		for i := 0; i < gc.NumGeometries(); i++ {
+			cs = append(cs, emptyTree(gc.GeometryN(i)))
+		}
+		t["c"] = cs
+	}
+	return t
+}
+
 func boundaryGen(r *rand.Rand, n int, tier string, emit func(Case)) {
 	for i := 0; i < n; i++ {
 		if r.Intn(12) == 0 {
@@ -176,7 +190,7 @@ func boundaryOnPanic(c Case) Event {
 	if _, ok := c["kind"]; ok {
 		return Event{"kind": "sliver", "k": 1, "hu": 1, "wkt": "", "empty": false, "fin": false, "exact": false, "xu": 0, "yu": 0, "isempty": false, "dim": 2}
 	}
-	return Event{"g": []*flat{}, "tree": Event{"t": "Point", "c": []Event{}}, "dim": 0, "isempty": false, "bnd": []*flat{}, "bbempty": false,
+	return Event{"g": []*flat{}, "tree": Event{"t": "Point", "c": []Event{}}, "dim": 0, "isempty": false, "bnd": []*flat{}, "bbempty": false, "btree": Event{"t": "Point", "e": true, "c": []Event{}},
 		"pos": Event{"empty": true, "q": []int{0, 0}, "exact": false}}
 }
 
@@ -200,6 +214,7 @@ func boundaryExec(c Case) Event {
 	}
 	ev["bnd"] = parts(bb)
 	ev["bbempty"] = b.Boundary().IsEmpty()
+	ev["btree"] = emptyTree(b)
 	pos := g.PointOnSurface()
 	if xy, ok := pos.XY(); ok {
 		if inv != nil {
